@@ -80,11 +80,16 @@ def ds_iter(n, m, shard=0, nshards=1):
         yield index, ds_decode(n, m, index)
 
 
+ON_DATASET = None   # progress hook installed by the harness in worker processes
+
+
 def ds_iter_strided(n, m, shard, nshards):
     total = SWO_COUNT[n] ** m
     for index in range(shard, total, nshards):
         if index == 0:
             continue
+        if ON_DATASET is not None:
+            ON_DATASET(n, m, index)
         yield index, ds_decode(n, m, index)
 
 
